@@ -30,6 +30,13 @@ static Obj1 make_obj1(Rng& rng, int family)
 	double c = rng.coin(0.1) ? 0.0 : rng.mag(1e-3, 1e3);
 	double s = rng.loguni(1e-3, 1e3);
 	double d = rng.coin(0.3) ? 0.0 : rng.mag(1e-3, 1e3);
+	if(rng.coin(0.3))
+	{
+		// the whole abscissa rescaled by an exact power of two (1e-6 .. 1e6): "from any starting point and scale".  Not below 1e-6: Brent's absolute
+		// floor of one machine epsilon in the step tolerance then becomes comparable to sqrt(eps) x scale, which this monitor grants anyway.
+		double sc = std::ldexp(1.0, rng.irange(-20, 20));
+		c *= sc, s *= sc;
+	}
 	o.s		 = s;
 	switch(family)
 	{
